@@ -51,5 +51,5 @@ DELIVERABLES in {d}/SEED/ :
   patch.diff  — `git diff` of the library change ONLY (not the demonstration), applicable with `git apply` at the worktree root;
   demo/       — the demonstration file(s) plus a README.txt saying where to put them and the exact command to run;
   meta.json   — {{"property": "{pid}", "summary": "...", "needs_to_manifest": "...", "files_changed": [...], "commands_run": [...], "test_suite_with_patch": "N passed, 0 failed", "demo_with_patch": "fails: ...", "demo_without_patch": "passes"}}
-VERIFY YOURSELF, in this order: (1) with the patch applied: full test suite passes; demonstration fails. (2) `git stash` / revert the library change (keep the demo): demonstration passes. Re-apply the patch at the end so the worktree contains patch + demo. If your first idea turns out to be caught by the existing tests, pick another. Keep the build output in {d}/target (it will be deleted with the worktree).
+VERIFY YOURSELF, in this order: (1) with the patch applied: full test suite passes; demonstration fails. (2) revert the library change with `git apply -R SEED/patch.diff` (keep the demo; do NOT use `git stash`: the stash is shared by all worktrees of the repository and other people work in sibling worktrees): demonstration passes. Re-apply the patch (`git apply SEED/patch.diff`) at the end so the worktree contains patch + demo. If your first idea turns out to be caught by the existing tests, pick another. Keep the build output in {d}/target (it will be deleted with the worktree).
 FINAL REPORT (short): the change, why it breaks the property, what is needed to manifest it, the name of the demo test target and crate, and the verification results.""")
